@@ -733,6 +733,23 @@ func doReplay(ck *Check, path, root string) int {
 			return 1
 		}
 	}
+	var unknown []string
+	for _, s := range sigs[0] {
+		isKnown := false
+		for pat, what := range known {
+			if ok, _ := regexp.MatchString(pat, s); ok {
+				fmt.Printf("KNOWN-FINDING: property=%s %s\n", ck.ID, what)
+				isKnown = true
+			}
+		}
+		if !isKnown {
+			unknown = append(unknown, s)
+		}
+	}
+	if len(sigs[0]) > 0 && len(unknown) == 0 {
+		fmt.Printf("replay: recorded signature %q not reproduced; only known findings %v\n", rf.Sig, sigs[0])
+		return 0
+	}
 	if len(sigs[0]) > 0 {
 		fmt.Printf("replay produced other violations %v, recorded signature %q not reproduced\n", sigs[0], rf.Sig)
 		fmt.Printf("VIOLATION property=%s replay=%s\n", ck.ID, path)
